@@ -8,3 +8,51 @@ Theorem C13_tol_scalar_vector :
   forall (F : Type) (v : F) n, tolv (TScalar v) n = tolv (TVector (repeat v n)) n.
 Proof. exact @tolv_scalar_vector. Qed.
 Print Assumptions C13_tol_scalar_vector.
+
+(* ---------------- duplication: the error norm is blind to identical copies (real semantics) ---------------- *)
+Require Import List Reals.
+Require Import IVP.model.RealOps IVP.proofs.NormCopies.
+Require IVP.model.Dopri5 IVP.model.Rk23.
+
+Theorem C13_dopri5_errnorm_copies :
+  forall m (atolv rtolv y ynew e : list R),
+    (0 < m)%nat -> (0 < length y)%nat ->
+    length atolv = length y -> length rtolv = length y -> length ynew = length y -> length e = length y ->
+    Dopri5.errnorm Rops (dup m atolv) (dup m rtolv) (dup m y) (dup m ynew) (dup m e) =
+    Dopri5.errnorm Rops atolv rtolv y ynew e.
+Proof. exact dopri5_errnorm_copies. Qed.
+Print Assumptions C13_dopri5_errnorm_copies.
+
+Theorem C13_rk23_errnorm_copies :
+  forall m (atolv rtolv y ynew e : list R),
+    (0 < m)%nat -> (0 < length y)%nat ->
+    length atolv = length y -> length rtolv = length y -> length ynew = length y -> length e = length y ->
+    Rk23.errnorm Rops (dup m atolv) (dup m rtolv) (dup m y) (dup m ynew) (dup m e) =
+    Rk23.errnorm Rops atolv rtolv y ynew e.
+Proof. exact rk23_errnorm_copies. Qed.
+Print Assumptions C13_rk23_errnorm_copies.
+
+(* ---------------- time reflection (real semantics) ----------------
+   the stage recurrence shared by all four explicit methods, for ANY tableau description: the reflected problem
+   z'(s) = -f(-s, z), started at -x with step -h and negated first slope(s), is evaluated at the mirrored times with the
+   SAME state arguments and returns the negated slopes; one DOPRI5 attempt then has the same new state, error vector and
+   error norm, so that the accept/reject decision and the proposed step length are mirrored too. *)
+Require Import IVP.model.RK IVP.proofs.ReflectKernel.
+
+Theorem C13_stage_recurrence_mirrors_under_time_reflection :
+  forall f x h y sts ks calls,
+    run_stages Rops (refl f) (- x)%R (- h)%R y sts (map negv ks) (map (fun c => (- fst c, snd c)%R) calls) =
+    let '(ks', calls') := run_stages Rops f x h y sts ks calls in
+    (map negv ks', map (fun c => (- fst c, snd c)%R) calls').
+Proof. exact run_stages_reflect. Qed.
+Print Assumptions C13_stage_recurrence_mirrors_under_time_reflection.
+
+Theorem C13_dopri5_attempt_mirrors_under_time_reflection :
+  forall f atol rtol x y k1 h,
+    let a := Dopri5.kernel Rops f atol rtol x y k1 h in
+    let a' := Dopri5.kernel Rops (refl f) atol rtol (- x)%R y (negv k1) (- h)%R in
+    Dopri5.at_ynew a' = Dopri5.at_ynew a /\ Dopri5.at_errv a' = Dopri5.at_errv a /\ Dopri5.at_err a' = Dopri5.at_err a /\
+    Dopri5.at_knew a' = negv (Dopri5.at_knew a) /\ Dopri5.at_ks a' = map negv (Dopri5.at_ks a) /\
+    Dopri5.at_calls a' = map (fun c => (- fst c, snd c)%R) (Dopri5.at_calls a).
+Proof. exact dopri5_attempt_reflect. Qed.
+Print Assumptions C13_dopri5_attempt_mirrors_under_time_reflection.
